@@ -646,7 +646,7 @@ func (w *world) exec(line string) {
 	if isReset {
 		w.c.NewCase()
 	}
-	if w.t == nil && !isReset && !(len(f) > 0 && (f[0] == "e2e" || f[0] == "huge")) {
+	if w.t == nil && !isReset && !(len(f) > 0 && (f[0] == "e2e" || f[0] == "e2x" || f[0] == "huge")) {
 		w.c.Emit(line, "bad-op")
 		return
 	}
@@ -672,6 +672,17 @@ func (w *world) exec(line string) {
 			obs = "e2e ok"
 			if kind != "" {
 				obs = "e2e FAIL " + kind
+				w.c.Violate(kind, detail, []string{line})
+			}
+		}
+	case f[0] == "e2x" && len(f) == 2:
+		if n, ok := atoi(f[1]); ok && n < nE2x {
+			w.c.NewCase()
+			kind, detail := w.e2x(n)
+			w.cleanup()
+			obs = "e2x ok"
+			if kind != "" {
+				obs = "e2x FAIL " + kind
 				w.c.Violate(kind, detail, []string{line})
 			}
 		}
@@ -773,6 +784,9 @@ func main() {
 	}
 	for i := 0; i < ne2e && i < c.N; i++ {
 		w.exec(fmt.Sprintf("e2e %d", c.R.Intn(1000)))
+	}
+	for i := 0; i < nE2x; i++ {
+		w.exec(fmt.Sprintf("e2x %d", i))
 	}
 	for i := 0; i < 4; i++ {
 		w.exec(fmt.Sprintf("huge %d", i))
